@@ -1,7 +1,7 @@
 ID = "C02"
 LEVEL = "proof"
-CONTRACT_MODULES = ["contracts.sorting", "contracts.tasks"]
-FUNCTIONS = ["_dfs", "toposort", "Manager.find_taskids", "Manager.find_tasks"]
+CONTRACT_MODULES = ["contracts.sorting", "contracts.refcount", "contracts.tasks", "contracts.tasks_proto"]
+FUNCTIONS = ["_dfs", "toposort", "Manager.find_taskids", "Manager.find_tasks", "Manager.run_tasks", "Manager.set_value"]
 RAC = "rac/c02.py"
 RAC_BUDGET = {"quick": 60, "thorough": 600}
 TRUSTED = [
@@ -17,14 +17,16 @@ ASSUMPTIONS = [
     "the iterator stored in the DFS stack is shared with the local variable: every element a for-loop takes advances it (pyvc/dfs_engine.py)",
 ]
 BOUNDED = []
-EXPLANATION = ("contracts on sorting._dfs, sorting.toposort, Manager.find_taskids, Manager.find_tasks: result = each task "
+EXPLANATION = ("Manager.set_value computes its schedule AFTER replacing the definition (from the updated indices) and Manager.run_tasks "
+               "runs exactly that schedule, each entry once, in order (runs == schedule); "
+               "contracts on sorting._dfs, sorting.toposort, Manager.find_taskids, Manager.find_tasks: result = each task "
                "reachable from the start exactly once, in an order compatible with every ordering edge unless the edge "
                "closes a cycle; discharged by z3 from the real source; the same clauses evaluated at run time on the "
                "compiled build over all small graphs")
 DESIGN_REF = "DESIGN.md section 4, C02"
 TECHNIQUE = "contract-based deductive verification (pyvc VC generation from the real AST, z3/cvc5) + run-time contracts on small scopes"
 LEVEL_TEXT = ("Function contracts for the ordering walk (sorting._dfs, sorting.toposort, Manager.find_taskids, "
-              "Manager.find_tasks) are discharged for all graphs, all start sets and all iteration orders; a run "
+              "Manager.find_tasks) and for the two methods that build and execute the schedule (Manager.set_value, Manager.run_tasks) are discharged for all graphs, all start sets and all iteration orders; a run "
               "that leaves any obligation open records level 'other' in its evidence.")
-LEVEL_NOTE = ("Trusted: library models of dict/set/deque/iterators, Cython compilation, SMT solvers. run_tasks/set_value level "
-              "(runs == schedule) is proved under C18/C17; the run-time check covers all digraphs on <=3/4 vertices x all orders.")
+LEVEL_NOTE = ("Trusted: library models of dict/set/deque/iterators, Cython compilation, SMT solvers. virtual callees of run_tasks/set_value (Task.run, _get_value, _set_value) "
+              "assumed by contract as under C18; the run-time check covers all digraphs on <=3/4 vertices x all orders.")
